@@ -20,7 +20,7 @@ ASSUMPTIONS = ['loopback UDP delivers datagrams of one sender in order (probe-af
                'UDP_PORT is rebound per process to a free port; startup_broadcast=False',
                'a wall-clock limit of 2 s for the probe answer; its expiry with a live thread is inconclusive']
 REQUIRED = ['identities', 'messages_checked', 'truncated_identities', 'disabled_identities', 'datagrams', 'probe_answers',
-            'non_requests_sent', 'requests_sent']
+            'non_requests_sent', 'requests_sent', 'quiet_periods']
 
 N_ID = {'quick': 700, 'thorough': 40000}
 N_DG = {'quick': 250, 'thorough': 6000}
@@ -28,7 +28,8 @@ MAXLEN = 508
 
 
 def plan(tier, seed, scale=1.0):
-    return [{'idx': i, 'n_id': int(N_ID[tier] * scale), 'n_dg': int(N_DG[tier] * scale)} for i in range(16)]
+    gaps = [0.5, 1.0, 2.0, 3.5, 5.0] if tier == 'quick' else [0.5, 2.0, 3.5, 6.0, 11.0, 16.0, 31.0, 61.0]
+    return [{'idx': i, 'n_id': int(N_ID[tier] * scale), 'n_dg': int(N_DG[tier] * scale), 'quiet_gap': gaps[i % len(gaps)]} for i in range(16)]
 
 
 ALPHA = {'ascii': 'abcXYZ 019_-.', 'esc': '"\\\n\t/\x01\x1f"', 'u2': 'äöüéß', 'u3': '€→√あ', 'u4': '𝄞😀𐍈', 'mixed': 'aä€𝄞"\\\n z'}
@@ -179,6 +180,8 @@ class World:
             return 'oversized-garbage', bytes(rng.randrange(32, 127) for _ in range(rng.randint(1025, 3000))), False
         return 'oversized-request', b'{"SECoP": "discover", "pad": "' + b'x' * rng.randint(1100, 2000) + b'"}', None   # truncated by recv: either way
 
+    quiet_gap = 0
+
     def run_responder(self, rng, n, nseq=8):
         r = self.r
         for s in range(nseq):
@@ -196,8 +199,16 @@ class World:
             a.setblocking(False)
             history = []
             try:
+                gap_at = (n // nseq) // 2 if s == 0 and self.quiet_gap else -1
                 for i in range(n // nseq + 1):
+                    if i == gap_at:
+                        # keeps answering after a quiet period (real time: no datagram at all for some seconds)
+                        time.sleep(self.quiet_gap)
+                        history.append(['quiet-period', f'{self.quiet_gap} s'])
+                        r.count('quiet_periods')
                     klass, dg, isreq = self.gen_datagram(rng)
+                    if i == gap_at:
+                        klass, dg, isreq = 'request', b'{"SECoP": "discover"}', True
                     history.append([klass, dg[:60].decode('latin1')])
                     r.count('datagrams')
                     r.count('requests_sent' if isreq else 'non_requests_sent')
@@ -223,6 +234,8 @@ class World:
                     case = {'sub': 'responder', 'history': history[-6:], 'ifaces': ifaces}
                     if dead:
                         if not th.is_alive() or escaped:
+                            if len(history) > 1 and history[-2][0] == 'quiet-period':
+                                klass = 'quiet-period'
                             r.violation(f'C19/responder/killed-by/{klass}', f'after a {klass} datagram the responder thread is dead '
                                         f'({escaped[0] if escaped else "returned"}) and later requests stay unanswered', case)
                         else:
@@ -306,6 +319,7 @@ def run_shard(shard):
     r = rec.Recorder(shard)
     rng = random.Random(f'C19/{shard["seed"]}/{shard["idx"]}')
     w = World(r)
+    w.quiet_gap = shard.get('quiet_gap', 0)
     w.run_identities(rng, shard['n_id'])
     w.run_responder(rng, shard['n_dg'])
     if shard['idx'] == 0:
